@@ -64,6 +64,7 @@ def parseKey (s : String) : Key :=
 
 def parseVal (s : String) : Option Val :=
   if s == "nil" then none
+  else if s.startsWith "P" then some (.user (9000000 + natOf (s.drop 1).toString))   -- a pointer value, by identity
   else if s.startsWith "u" then some (.user (natOf (s.drop 1).toString))
   else if s.startsWith "a" then some (.align (natOf (s.drop 1).toString))
   else if s == "b1" then some (.bool true)
@@ -72,7 +73,7 @@ def parseVal (s : String) : Option Val :=
 
 def showVal : Option Val → String
   | none => "nil"
-  | some (.user n) => s!"u{n}"
+  | some (.user n) => if n ≥ 9000000 then s!"P{n - 9000000}" else s!"u{n}"
   | some (.align a) => s!"a{a}"
   | some (.bool b) => if b then "b1" else "b0"
   | some (.dims w h) => s!"dims{w}x{h}"
